@@ -255,6 +255,13 @@ class Run:
                 continue
             ok = 0
             if time.monotonic() > deadline:
+                hung = [c for c in range(self.n) if self.issued[c] and self.ended[c] is not None
+                        and not self.call_stable(c)]
+                if hung and not self.blocked:
+                    # the callable is over but its caller has no answer: that is the property failing
+                    # ("no call is left hanging"), not an infrastructure problem
+                    self.end_state["hung_calls"] = hung
+                    raise _ExitHung()
                 raise HarnessError("settle timed out: " + self.describe())
             time.sleep(0.0003)
         # an exit in progress completes as soon as nothing is left to join
@@ -613,6 +620,10 @@ def oracle(r: Run) -> str | None:
             issue_seq[rec[2]] = seq
         elif kind == "blocker_timeout":
             return "harness: blocker timed out"
+    if r.end_state.get("hung_calls"):
+        c = r.end_state["hung_calls"][0]
+        return (f"call {c}: the callable finished ({r.ended[c][0]}) but the caller was left hanging "
+                f"(no result, exception or cancellation delivered within {WAIT} s)")
     if r.end_state.get("exit_hung") or r.end_state.get("exit_alive"):
         return ("leaving start_blocking_portal() did not complete although every task started through "
                 "the portal has finished")
@@ -838,6 +849,9 @@ def run_cases(cases: list[dict], res: Result, ctx: Ctx | None = None) -> None:
         r = Run(case).run()
         runs.append(r)
         all_lines += [req for req, _ in r.lines]
+        if r.end_state.get("hung_calls") or r.end_state.get("exit_hung"):
+            res.stats["aborted_after_hang"] = True
+            break
     all_lines.append("hits")
     replies = run_model("portal", all_lines)
     hits = replies[-1]
@@ -912,7 +926,7 @@ def run(ctx: Ctx) -> Result:
             cases.append(gen_case(ctx.rng, 4 if quick else 6))
     for k in range(0, len(cases), 100):
         run_cases(cases[k: k + 100], res, ctx)
-        if ctx.time_left() < 8:
+        if ctx.time_left() < 8 or res.stats.get("aborted_after_hang") or len(res.violations) > 20:
             break
     hit = res.stats.get("model_branch_hits", {})
     res.stats["model_branches_unhit"] = [b for b in ALL_BRANCHES if b not in hit]
